@@ -3,6 +3,8 @@
 //! model checker cannot handle when the store's size is not a compile-time constant).
 //! Private names used: `PeersStore { info_hashes }`.
 use super::*;
+#[allow(unused_imports)]
+use crate::verif_env::k as kani;
 
 impl PeersStore {
     /// (number of peers stored for `info_hash`, the most recently announced one)
